@@ -716,11 +716,35 @@ func evalStack(sstack []any) []any {
 			}
 		case in.code:
 			sstack[i] = false
-			if list, ok := right.([]any); ok {
+			switch list := right.(type) {
+			case []any:
 				for _, ev := range list {
-					if equalValues(left, ev) {
+					if equalValues(left, normalize(ev)) {
 						sstack[i] = true
 						break
+					}
+				}
+			case gen.Array:
+				for _, ev := range list {
+					if equalValues(left, normalize(ev)) {
+						sstack[i] = true
+						break
+					}
+				}
+			case Indexed:
+				for j := 0; j < list.Size(); j++ {
+					if equalValues(left, normalize(list.ValueAtIndex(j))) {
+						sstack[i] = true
+						break
+					}
+				}
+			default:
+				if rv := reflect.ValueOf(right); rv.Kind() == reflect.Slice || rv.Kind() == reflect.Array {
+					for j := 0; j < rv.Len(); j++ {
+						if equalValues(left, normalize(rv.Index(j).Interface())) {
+							sstack[i] = true
+							break
+						}
 					}
 				}
 			}
@@ -734,6 +758,19 @@ func evalStack(sstack []any) []any {
 					sstack[i] = boo == (len(tl) == 0)
 				case map[string]any:
 					sstack[i] = boo == (len(tl) == 0)
+				case gen.Array:
+					sstack[i] = boo == (len(tl) == 0)
+				case gen.Object:
+					sstack[i] = boo == (len(tl) == 0)
+				case Indexed:
+					sstack[i] = boo == (tl.Size() == 0)
+				case Keyed:
+					sstack[i] = boo == (len(tl.Keys()) == 0)
+				default:
+					switch rv := reflect.ValueOf(left); rv.Kind() {
+					case reflect.Slice, reflect.Array, reflect.Map:
+						sstack[i] = boo == (rv.Len() == 0)
+					}
 				}
 			}
 		case has.code, exists.code:
